@@ -113,6 +113,40 @@ class Finder(importlib.abc.MetaPathFinder):
 
 
 _installed = False
+_PATH_MEMO = {}
+
+
+def _key(x):
+    from .symstr import SymStr
+
+    if type(x) is SymStr:
+        return ("S",) + tuple(c if isinstance(c, int) else ("z", c.get_id()) for c in x.cs)
+    return x
+
+
+def _path_cached(size):
+    def deco(f):
+        def wrapper(*a):
+            from . import core
+
+            E = core.ENGINE
+            if E is None:
+                return f(*a)
+            k = (id(f), E.stats["paths"]) + tuple(_key(x) for x in a)
+            try:
+                r = _PATH_MEMO.get(k)
+            except TypeError:
+                return f(*a)
+            if r is None:
+                if len(_PATH_MEMO) > 64:
+                    _PATH_MEMO.clear()
+                r = _PATH_MEMO[k] = (a, f(*a))
+            return r[1]
+
+        wrapper.__wrapped__ = f
+        return wrapper
+
+    return deco
 
 
 def install(disable_cache=True):
@@ -130,5 +164,6 @@ def install(disable_cache=True):
     if disable_cache:
         import rope.base.utils as u
 
-        # a cross-call memo would compare stale symbolic keys from a previous path
-        u.cached = lambda size: (lambda f: f)
+        # rope's cross-call memo would compare stale symbolic keys from a previous path; it is
+        # replaced by a memo that lives for one path only and is keyed structurally
+        u.cached = _path_cached
